@@ -19,6 +19,7 @@ import (
 	zrt "github.com/brimdata/super/runtime"
 	"github.com/brimdata/super/zbuf"
 
+	"verif/internal/lk"
 	"verif/internal/prog"
 	"verif/internal/rt"
 )
@@ -90,6 +91,7 @@ type c07Exec struct {
 	vals  []zed.Value
 	decl  *c07Declared
 	limit time.Duration
+	lake  *lk.Lake // pool-scan input: vals are already loaded; the program starts with `from`
 }
 
 var c07NumRE = regexp.MustCompile(`0x[0-9a-fA-F]+|\d+`)
@@ -205,12 +207,16 @@ func (x *c07Exec) run(optimize bool, pre, post func(dag.Seq)) *c07Arm {
 			res.compile = x.perr
 			return
 		}
-		job, err := compiler.NewJob(rctx, x.seq, data.NewSource(nil, nil), nil)
+		src := data.NewSource(nil, nil)
+		if x.lake != nil {
+			src = data.NewSource(x.lake.Eng, x.lake.Root)
+		}
+		job, err := compiler.NewJob(rctx, x.seq, src, nil)
 		if err != nil {
 			res.compile = err
 			return
 		}
-		if x.decl != nil {
+		if x.decl != nil && x.lake == nil {
 			if scan, ok := job.DefaultScan(); ok {
 				which := order.Asc
 				if x.decl.Desc {
@@ -245,7 +251,12 @@ func (x *c07Exec) run(optimize bool, pre, post func(dag.Seq)) *c07Arm {
 			res.dag = string(b)
 		}
 		plan <- planned{res.dag, res.entry}
-		if err := job.Build(zbuf.NewArray(append([]zed.Value(nil), x.vals...))); err != nil {
+		if x.lake != nil {
+			err = job.Build()
+		} else {
+			err = job.Build(zbuf.NewArray(append([]zed.Value(nil), x.vals...)))
+		}
+		if err != nil {
 			res.build = err
 			return
 		}
@@ -329,11 +340,22 @@ func c07Rewrites(a, b string) []string {
 	if cnt(b, `"left_dir":"asc"`)+cnt(b, `"left_dir":"desc"`)+cnt(b, `"right_dir":"asc"`)+cnt(b, `"right_dir":"desc"`) > 0 {
 		out = append(out, "join_input_order_propagated")
 	}
+	if c07SeqScanFilterRE.MatchString(b) {
+		out = append(out, "filter_pushed_into_pool_scan")
+	}
+	if strings.Contains(b, `"key_pruner":{`) {
+		out = append(out, "pool_key_range_pruner")
+	}
+	if strings.Contains(b, `"kind":"SeqScan"`) && !strings.Contains(b, `"kind":"Slicer"`) {
+		out = append(out, "pool_scan_without_slicer")
+	}
 	if len(out) == 0 {
 		out = append(out, "other")
 	}
 	return out
 }
+
+var c07SeqScanFilterRE = regexp.MustCompile(`"kind":"SeqScan","pool":"[^"]*","commit":"[^"]*","fields":[^{]*"filter":\{`)
 
 var c07SortFields = []string{prog.FG, prog.FS, prog.FTs, prog.FK, prog.FId}
 
@@ -347,7 +369,7 @@ func runC07(c *rt.Ctx) {
 		"`with -limit` only on keys from one comparable class, so that the known C10 spill-grouping defect does not leak into this property",
 		"not generated because they hang or crash both arms alike on the unchanged tree (reported separately): uniq downstream of fork/switch/join, the fuse operator inside a fork/switch leg or on an undefined order, fuse() aggregate downstream of a fork or with -limit, arithmetic on a null of union type after fuse",
 		"a difference is attributed to a known defect only after re-running with exactly that defect's cause neutralised in the DAG (filters made total, join directions cleared, streaming flag cleared) makes the two arms agree",
-		"lake (pool scan) inputs are not covered by this monitor yet",
+		"lake family: the same general grammar behind `from p`, p a pool on the in-memory engine keyed on one of id/g/s/ts/k (asc or desc), filled by 1–4 loads with a small object threshold so that objects overlap in key range (sometimes compacted); as analyzed = raw PoolScan (kernel: sorted lister→slicer→scanner, no filter), optimized = lister(+range pruner)→(slicer)→scanner(+pushed filter); the generator's order-state for the source is OrdSorted on the pool key (ties undefined); a descending pool holds no null/missing key (same reason as for declared sort keys)",
 	}, "\n"))
 	// Small batches, so that streaming operators see many of them.  Set once
 	// per process: operators of finished runs may still be reading it.
@@ -355,6 +377,10 @@ func runC07(c *rt.Ctx) {
 	ngen := c.N(1600, 20000)
 	for i := 0; i < ngen; i++ {
 		c.Case("gen", i, func(o *rt.Obs) { c07Gen(c, o) })
+	}
+	nlake := c.N(300, 5000)
+	for i := 0; i < nlake; i++ {
+		c.Case("lake", i, func(o *rt.Obs) { c07Lake(c, o) })
 	}
 	njoin := c.N(300, 6000)
 	for i := 0; i < njoin; i++ {
@@ -374,6 +400,68 @@ func runC07(c *rt.Ctx) {
 	for i := range c07Directed {
 		c.Case("directed", i, func(o *rt.Obs) { c07DirectedCase(c, o, i) })
 	}
+}
+
+// c07Lake: the general grammar over a pool scan.
+func c07Lake(c *rt.Ctx, o *rt.Obs) {
+	r := o.R
+	zctx := zed.NewContext()
+	ctx := context.Background()
+	key := rt.Pick(r, c07SortFields)
+	desc := r.Chance(1, 3)
+	ord := "asc"
+	if desc {
+		ord = "desc"
+	}
+	spec := lk.PoolSpec{Name: "p", Key: key, Order: ord, Thresh: rt.Pick(r, []int64{1, 60, 150, 400, 0}), Stride: rt.Pick(r, []int{1, 16, 0})}
+	_, l, m, err := newMemLake(ctx, false, spec)
+	if err != nil {
+		o.Violation("lake-setup", err.Error())
+		return
+	}
+	in := prog.InputOpts{SortedBy: key, Desc: desc}
+	if r.Chance(1, 4) {
+		in.DistinctG, in.DistinctS = 3, 3
+	}
+	nrows := r.Range(0, 40)
+	if !c.Quick() && r.Chance(1, 10) {
+		nrows = r.Range(40, 250)
+	}
+	vals := prog.GenInput(r, zctx, nrows, in)
+	shuffled := make([]zed.Value, len(vals))
+	for i, j := range r.Perm(len(vals)) {
+		shuffled[i] = vals[j]
+	}
+	vals = shuffled
+	nloads := r.Range(1, 4)
+	loads := 0
+	for i := 0; i < nloads; i++ {
+		lo, hi := i*len(vals)/nloads, (i+1)*len(vals)/nloads
+		if lo == hi {
+			continue
+		}
+		if _, err := l.Load(ctx, zctx, m.PoolID, "main", vals[lo:hi]); err != nil {
+			o.Violation("lake-setup", "load: "+err.Error())
+			return
+		}
+		loads++
+	}
+	objs, _ := l.Objects(ctx, "p", "main")
+	o.Count("pool_objects", int64(len(objs)))
+	c.Max("max_pool_objects", int64(len(objs)))
+	opts := prog.Opts{InputOrder: prog.OrdSorted, InputKeys: []prog.SortKey{{Path: []string{key}, Desc: desc}}, Sorted: key, SortedDesc: desc, From: "from p"}
+	p := prog.Gen(r, opts)
+	if strings.Contains(p.Text, "with -limit") || strings.Contains(p.Text, "join") && !r.Chance(1, 5) {
+		// see c07Gen: the same two known defects are reachable through the
+		// pool's sort key
+		opts.Sorted, opts.NoJoin = "", true
+		for strings.Contains(p.Text, "with -limit") || strings.Contains(p.Text, "join") {
+			p = prog.Gen(r, opts)
+		}
+	}
+	o.Desc(map[string]any{"program": p, "pool": spec, "rows": len(vals), "loads": loads, "objects": len(objs), "input": prog.FormatValues(vals, 60)})
+	x := &c07Exec{zctx: zctx, text: p.Text, vals: vals, lake: l}
+	c07CheckExec(c, o, x, p)
 }
 
 // c07Join is a family of its own: joins fed from a fork whose legs have every
@@ -539,6 +627,11 @@ func c07Check(c *rt.Ctx, o *rt.Obs, zctx *zed.Context, p *prog.Program, vals []z
 	if len(parsed) > 0 {
 		x.seq = parsed[0]
 	}
+	c07CheckExec(c, o, x, p)
+}
+
+func c07CheckExec(c *rt.Ctx, o *rt.Obs, x *c07Exec, p *prog.Program) {
+	zctx, vals, decl := x.zctx, x.vals, x.decl
 	start := time.Now()
 	a := x.run(false, nil, nil)
 	if !a.hung && !a.slow {
@@ -561,8 +654,12 @@ func c07Check(c *rt.Ctx, o *rt.Obs, zctx *zed.Context, p *prog.Program, vals []z
 	o.Count("mode_"+p.ModeName, 1)
 	var rewrites []string
 	if a.dag != b.dag && a.dag != "" && b.dag != "" {
-		o.Nontrivial(fmt.Sprint(o.Kind, "/", o.Index))
 		rewrites = c07Rewrites(a.dag, b.dag)
+		// a pool scan is always rewritten into lister→slicer→scanner: that alone
+		// does not count
+		if x.lake == nil || strings.Join(rewrites, "") != "other" {
+			o.Nontrivial(fmt.Sprint(o.Kind, "/", o.Index))
+		}
 		for _, rw := range rewrites {
 			o.Count("rewrite_"+rw, 1)
 		}
